@@ -15,7 +15,7 @@
 #define SS 2
 #endif
 #define EV 1
-#define MAXE 8
+#define MAXE 12
 #define MAXLOG 32
 
 static void on_listener(uint32_t seq, uint32_t payload);
@@ -25,11 +25,12 @@ using Q = eventpp::EventQueue<int, void(uint32_t, uint32_t), Pol>;
 
 enum QOp { Q_ENQUEUE, Q_PROCESS, Q_PROCESS_ONE, Q_PROCESS_IF, Q_PROCESS_UNTIL, Q_TAKE, Q_PEEK, Q_CLEAR, Q_COUNT };
 
-struct Evt { int producer; int enqCall, enqRet; int dispatched; int taken; int consumer; int consumedAt; int dispStart; };
+struct Evt { int producer; int enqCall, enqRet; int dispatched; int taken; int consumer; int consumedAt; int dispStart; int consumeCall; };
+struct Peek { uint32_t seq; int tret; };
 struct Log { uint32_t seq[MAXLOG]; int n; };
 struct G {
 	Q * q; int clock; Evt ev[MAXE]; int nev; int ops[4][4]; int idx[4]; Log consumed[5];
-	int clearCall[8], clearRet[8]; int nclear;
+	int clearCall[8], clearRet[8]; int nclear; int opCall[5]; Peek peeks[8]; int npeek;
 	// MODE 11
 	int obsCall, obsRet, obsResult, obsKind;
 	// MODE 7
@@ -45,7 +46,7 @@ static void on_listener(uint32_t seq, uint32_t payload)
 	vf_assert(payload == payload_of(seq), 321);                 // payload intact
 	Evt & e = g->ev[seq];
 	e.dispStart = g->clock++;
-	e.dispatched++; e.consumer = me;
+	e.dispatched++; e.consumer = me; e.consumeCall = g->opCall[me];
 	Log & l = g->consumed[me]; if(l.n < MAXLOG) l.seq[l.n] = seq; l.n++;
 	vf_assert(e.dispatched + e.taken <= 1, 322);                // never dispatched or taken more than once
 #if MODE == 11
@@ -58,7 +59,7 @@ static void on_listener(uint32_t seq, uint32_t payload)
 static void do_enqueue(int me)
 {
 	int seq = g->nev++;
-	Evt & e = g->ev[seq]; e.producer = me; e.dispatched = 0; e.taken = 0; e.consumer = -1; e.consumedAt = 0; e.dispStart = 0;
+	Evt & e = g->ev[seq]; e.producer = me; e.dispatched = 0; e.taken = 0; e.consumer = -1; e.consumedAt = 0; e.dispStart = 0; e.consumeCall = 0;
 	g->enqStarted++;
 	e.enqCall = g->clock++;
 	g->q->enqueue(EV, (uint32_t)seq, payload_of((uint32_t)seq));
@@ -70,13 +71,14 @@ static void do_take(int me)
 	if(g->q->takeEvent(&qe)) {
 		uint32_t seq = std::get<0>(qe.arguments);
 		vf_assert(seq < (uint32_t)g->nev && std::get<1>(qe.arguments) == payload_of(seq) && qe.event == EV, 324);
-		Evt & e = g->ev[seq]; e.taken++; e.consumer = me; e.consumedAt = t0;
+		Evt & e = g->ev[seq]; e.taken++; e.consumer = me; e.consumedAt = t0; e.consumeCall = t0;
 		vf_assert(e.dispatched + e.taken <= 1, 325);
 		Log & l = g->consumed[me]; if(l.n < MAXLOG) l.seq[l.n] = seq; l.n++;
 	}
 }
 static void do_op(int me, int op)
 {
+	g->opCall[me] = g->clock++;
 	switch(op) {
 	case Q_ENQUEUE: do_enqueue(me); break;
 	case Q_PROCESS: g->q->process(); break;
@@ -84,7 +86,16 @@ static void do_op(int me, int op)
 	case Q_PROCESS_IF: g->q->processIf([](uint32_t seq, uint32_t) { return (seq & 1u) == 0; }); break;
 	case Q_PROCESS_UNTIL: g->q->processUntil([](uint32_t seq, uint32_t) { return (seq & 1u) != 0; }); break;
 	case Q_TAKE: do_take(me); break;
-	case Q_PEEK: { Q::QueuedEvent qe; if(g->q->peekEvent(&qe)) { uint32_t seq = std::get<0>(qe.arguments); vf_assert(seq < (uint32_t)g->nev && std::get<1>(qe.arguments) == payload_of(seq), 326); } break; }
+	case Q_PEEK: {
+		Q::QueuedEvent qe; int t0 = g->clock++;
+		if(g->q->peekEvent(&qe)) {
+			int t1 = g->clock++;
+			uint32_t seq = std::get<0>(qe.arguments);
+			vf_assert(seq < (uint32_t)g->nev && std::get<1>(qe.arguments) == payload_of(seq) && qe.event == EV, 326);
+			if(g->npeek < 8) { g->peeks[g->npeek].seq = seq; g->peeks[g->npeek].tret = t1; g->npeek++; }     // judged after the join, when every record is complete
+			(void)t0;
+		}
+		break; }
 	default: { int i = g->nclear++; g->clearCall[i] = g->clock++; g->q->clearEvents(); g->clearRet[i] = g->clock++; break; }
 	}
 }
@@ -101,6 +112,16 @@ static void final_checks(bool drained)
 		for(int c = 0; c < g->nclear; c++) if(g->clearRet[c] > e.enqCall) maybeCleared = true;
 		if(drained && ! maybeCleared) vf_assert(e.dispatched + e.taken == 1, 331);       // none disappears
 		if(e.taken) vf_cover(COV_TAKE_HIT);
+	}
+	// a peeked event was at the front at some moment of the peek call: everything enqueued before it had left the queue by then,
+	// i.e. was consumed by a call that had started before the peek returned (or a clearEvents had started)
+	for(int k = 0; k < g->npeek; k++) {
+		uint32_t s = g->peeks[k].seq; int t1 = g->peeks[k].tret;
+		for(int r = 0; r < g->nev; r++) if(g->ev[r].enqRet != 0 && g->ev[r].enqRet < g->ev[s].enqCall) {
+			bool gone = (g->ev[r].dispatched + g->ev[r].taken >= 1) && g->ev[r].consumeCall != 0 && g->ev[r].consumeCall < t1;
+			bool cleared = false; for(int c = 0; c < g->nclear; c++) if(g->clearCall[c] < t1) cleared = true;
+			vf_assert(gone || cleared, 327);
+		}
 	}
 	// FIFO per (producer, consumer) pair
 	for(int c = 0; c < 5; c++) {
@@ -129,7 +150,7 @@ static void observer(void *)
 #endif
 extern "C" void harness()
 {
-	g = new G(); g->q = new Q();
+	g = new G(); g->q = new Q(); g->clock = 1;
 	g->q->appendListener(EV, Cb(1));
 #ifndef OPSET
 #define OPSET 0
@@ -138,10 +159,14 @@ extern "C" void harness()
 	static const int opset[] = { Q_ENQUEUE, Q_PROCESS, Q_PROCESS_ONE, Q_TAKE };
 #elif OPSET == 2
 	static const int opset[] = { Q_ENQUEUE, Q_PROCESS_IF, Q_PROCESS_UNTIL, Q_TAKE, Q_CLEAR };
+#elif OPSET == 3
+	static const int opset[] = { Q_ENQUEUE, Q_TAKE, Q_PEEK };
 #else
 	static const int opset[] = { Q_ENQUEUE, Q_PROCESS, Q_PROCESS_ONE, Q_PROCESS_IF, Q_PROCESS_UNTIL, Q_TAKE, Q_PEEK, Q_CLEAR };
 #endif
 	// events already pending when the threads start (so that consumers have something to race for)
+	// optionally a recycled (free) slot exists already: one event enqueued and processed before the threads start
+	if(vf_choose(2)) { do_enqueue(0); do_enqueue(0); do_enqueue(0); g->opCall[0] = g->clock++; g->q->process(); }    // three free slots: some stay free after the pending events below
 	unsigned pre = vf_choose(3);
 	for(unsigned i = 0; i < pre; i++) do_enqueue(0);
 	for(int t = 0; t < TT; t++) for(int k = 0; k < SS; k++) g->ops[t][k] = opset[vf_choose(sizeof(opset) / sizeof(opset[0]))];
@@ -223,7 +248,7 @@ static void scope_only(void *)
 }
 extern "C" void harness()
 {
-	g = new G(); g->q = new Q();
+	g = new G(); g->q = new Q(); g->clock = 1;
 	g->q->appendListener(EV, Cb(1));
 	static int widx[2] = {0, 1}; static int script;
 	int nw = 1;
